@@ -13,7 +13,7 @@ RULE = ('seeded sessions of 1-6 ops from {shell, exec_out, root, streaming_shell
         'fragmented; distinct = distinct event-log digests')
 ASSUMPTIONS = ['the device model emits only behaviour a conforming adbd can show (DESIGN 2.3)',
                'expected text is bytes.decode("utf8","backslashreplace") computed by the harness, not by adb_shell']
-EXPECT_PROBES = {'all': ['frag_reads', 'hdr_split', 'payload_split', 'empty_payload_wrte', 'utf8_split_across_wrte', 'c01_link_died_mid_command', 'late_open_okay']}
+EXPECT_PROBES = {'all': ['frag_reads', 'hdr_split', 'payload_split', 'empty_payload_wrte', 'utf8_split_across_wrte', 'c01_link_died_mid_command', 'late_open_okay', 'c01_ghost_left_packets_parked', 'c01_stale_generator_resumed']}
 KINDS = ['shell', 'shell', 'exec_out', 'streaming_shell', 'streaming_shell', 'root']
 OWN = ('wrong-result', 'unexpected-exception', 'timeout-instead-of-result', 'missing-exception', 'wrong-exception', 'hang', 'no-termination', 'deadlock')
 
@@ -23,6 +23,40 @@ def generate(seed, tier):
     g = Gen(seed)
     scn = S.session(g.int(0, 1 << 60), KINDS, nmax=6, big=big)
     ops = scn['actors'][0]
+    case = {'seed': seed, 'scn': scn}
+    if g.chance(0.06):
+        # a streaming_shell generator is read part-way, the connection is closed and opened again, another command runs, and then
+        # the old generator is resumed: it gets nothing (its stream is gone) and the new command gets exactly its own output
+        name = S.add_cmd(g, scn['device'], 3000)
+        scn['device']['cmds'][name]['cuts'] = [g.int(1, 20), g.int(1, 20), g.int(1, 20)]
+        scn['device']['cmds'][name]['content']['size'] = max(scn['device']['cmds'][name]['content'].get('size', 0), 80)
+        scn['device']['rid_style'] = 'seq'       # the device numbers its streams from the start again on the new connection
+        name2 = S.add_cmd(g, scn['device'], 3000)
+        scn['device']['cmds'][name2]['cuts'] = [g.int(1, 20), g.int(1, 20)]
+        scn['device']['cmds'][name2]['content']['size'] = max(scn['device']['cmds'][name2]['content'].get('size', 0), 60)
+        scn['actors'][0] = [ops[0], {'op': 'ss_create', 'cmd': name, 'decode': g.chance(0.5), 'rt': 1.0, 'tt': 0.5}, {'op': 'ss_next', 'n': 1, 'rt': 1.0},
+                            {'op': 'close'}, dict(ops[0]),
+                            {'op': 'streaming_shell', 'cmd': name2, 'decode': g.chance(0.5), 'rt': 5.0, 'tt': 5.0, 'nested_after': g.pick([1, 1, 2]),
+                             'nested': [{'op': 'ss_consume', 'expect_stale': True, 'rt': 1.0}]}]
+        return case
+    cmds = [op['cmd'] for op in ops if 'cmd' in op]
+    if cmds and g.chance(0.06):
+        # another device object in the same process (its own device, numbering its streams the same way) has streams open and
+        # packets parked while this one works: objects share nothing
+        import copy
+        scn['api'] = 'sync'
+        scn['device']['rid_style'] = 'seq'
+        gd = copy.deepcopy(scn['device'])
+        spec = gd['cmds'][cmds[0]]
+        if spec['content'].get('size', 0) < 40 or not spec.get('cuts'):
+            spec['content']['size'] = max(spec['content'].get('size', 0), 40)
+            spec['cuts'] = [7, 9, 11]
+        gs = {'api': 'sync', 'transport': 'mem', 'device': gd, 'config': {'frag': 'whole', 'call_cost': 1e-5}, 'object': {'banner': 'ghost'},
+              'actors': [[{'op': 'connect', 'rt': 5.0}, {'op': 'ss_create', 'cmd': cmds[0], 'decode': False, 'rt': 5.0}, {'op': 'ss_next', 'n': 1, 'rt': 5.0},
+                          {'op': 'shell', 'cmd': cmds[min(1, len(cmds) - 1)], 'decode': False, 'rt': 5.0}]]}
+        ops.insert(1, {'op': 'ghost', 'scn': gs, 'seed': g.int(0, 1 << 30)})
+        ops.append({'op': 'ghost_resume'})
+        return case
     if len(ops) >= 3 and g.chance(0.1):
         # a busy device answers one OPEN only after the host has given up on it; that command times out, and what the device then
         # sends on the abandoned stream must not show up in any later command's output
@@ -37,7 +71,7 @@ def generate(seed, tier):
         # the link dies somewhere in the session (RST / EOF / EIO at one transport call, for good): a command cut off before the
         # device closed its stream has no result -- it may raise anything, it must not return the part that happened to arrive
         scn['config']['faults'] = [{'at': g.int(4, 60), 'kind': g.pick(['reset', 'eof', 'oserror']), 'persistent': True}]
-    return {'seed': seed, 'scn': scn}
+    return case
 
 
 def _utf8_split(payloads):
@@ -79,6 +113,21 @@ def evaluate(case, tapes=None):
         # per-stream ground truth: what was read off the wire is what was sent, in order
         if s.read_payloads != s.sent_payloads[:len(s.read_payloads)]:
             out['violations'].append(O.P('wrong-result', 'stream %d: payloads read differ from payloads sent' % s.local))
+    if any(r['op'] == 'ghost' and r.get('ghost_parked') for r in run.results[0]):
+        out['probes']['c01_ghost_left_packets_parked'] = 1
+    for r in run.results[0]:
+        if r['op'] == 'ghost_resume' and r['ok'] and getattr(run, 'ghosts', None):
+            gop = [o for o in scn['actors'][0] if o['op'] == 'ghost'][0]
+            gcmd = gop['scn']['actors'][0][1]['cmd']
+            want = O.shell_payloads(gop['scn']['device'], gcmd)[1:]
+            if r['value'] != want:
+                out['violations'].append(O.P('wrong-result', 'the other device object\'s suspended streaming_shell, resumed after this object had worked, yielded %s; its device wrote %s' % (O.brief(r['value']), O.brief(want))))
+    for r in run.results[0]:
+        for n in r.get('nested') or []:
+            if n['op'] == 'ss_consume' and n['spec'].get('expect_stale'):
+                out['probes']['c01_stale_generator_resumed'] = 1
+                if n['ok'] and n['value']:
+                    out['violations'].append(O.P('wrong-result', 'a streaming_shell generator of the previous connection, resumed after close()/connect(), yielded %s' % O.brief(n['value'])))
     out['nontrivial'] = multi and run.link.frag_reads > 0
     out['digest'] = run.digest()
     out['sample'] = brief_scn(scn, run)
